@@ -257,14 +257,27 @@ def squareOf (v : Value) : Outcome Value :=
       if inI64 (ms * ms) && inIv (ms * ms * 1000000) then .ok (.interval (ms * ms * 1000000)) else .error .undefinedOperation
   | _ => .ok .null
 
+/-- `finish`: VARIANCE shows the variance, STDDEV its square root -/
+def stddevFinish (isVariance : Bool) (variance : Nat) : Nat :=
+  if isVariance then variance else F64.sqrt variance
+
+/-- INT sums (finding D72, repaired): `n·Σx² − (Σx)²` is formed EXACTLY (`i128` in the code: `n`, `Σx`, `Σx²` are `i64`, so both
+products are below `2^126`), then `numerator as f64 / (n * n) as f64` — two conversions to the nearest REAL (`F64.ofInt` is
+correctly rounded for every integer, `Lemmas/DecFloat.lean` `decToF64_nearest`) and one REAL division -/
+def stddevCalcInt (count : Int) (isVariance : Bool) (s q : Int) : Nat :=
+  stddevFinish isVariance (F64.div (F64.ofInt (count * q - s * s)) (F64.ofInt (count * count)))
+
+/-- REAL sums: the one-pass formula `(Σx² − (Σx)²/n)/n` step by step, then `if variance < 0.0 { 0.0 } else { variance }`
+(finding D72, repaired: the subtraction can cancel down to a rounding error below zero). `<` is IEEE's: false for NaN
+(NaN stays NaN) and for `-0.0` (stays `-0.0`) — `F64.cmp v 0.0 = lt` is exactly that (NaN is last, both zeros have key 0) -/
 def stddevCalc (count : Int) (isVariance : Bool) (s q : Nat) : Nat :=
   let n := F64.ofInt count
   let variance := F64.div (F64.sub q (F64.div (F64.mul s s) n)) n
-  if isVariance then variance else F64.sqrt variance
+  stddevFinish isVariance (if F64.cmp variance F64.zero == .lt then F64.zero else variance)
 
 def stddevValue (sum sumSq : Value) (count : Int) (isVariance : Bool) : Option Value :=
   match sum, sumSq with
-  | .int s, .int q => some (.real (stddevCalc count isVariance (F64.ofInt s) (F64.ofInt q)))
+  | .int s, .int q => some (.real (stddevCalcInt count isVariance s q))
   | .real s, .real q => some (.real (stddevCalc count isVariance s q))
   | _, _ => none
 
